@@ -217,7 +217,7 @@ contract(SER, 'Series.equals', key='EqSeries.equals',
         'isna_array': dict(params=dict(a='EqArr', include_none='bool'), order=['a'], kwonly=['include_none'], result='EqCmp',
                            ensures=['result.n == a.n and not result.is_false', 'forall_in(0, a.n, lambda i: ub("ib", result.cid, i) == ub("inan", a.aid, i))']),
     },
-    model_hook='specs.t2_equals:series_model_hook', concrete_inputs='specs.t2_equals:series_concrete_inputs',
+    model_hook='specs.t2_equals:series_model_hook', concrete_inputs='specs.t2_equals:series_concrete_inputs', witness_always=True,
     requires_concrete=[],
     ensures_concrete=['result == ref_series_equals(self, other, compare_name, compare_dtype, compare_class, skipna)'],
     ensures=[
@@ -407,9 +407,29 @@ def series_model_hook(m, params):
                 ix_same_dtype=same(si.fields['dtype'], oi.fields['dtype']), ix_same_object=same(si.fields['iid'], oi.fields['iid']))
 
 
+def _series_witnesses():
+    """model-independent witness pairs for Series.equals: derived from one another so that arrays / index objects are SHARED, differing in one aspect"""
+    import numpy as np
+    import static_frame as sf
+    s = sf.Series((1.0, np.nan, 3.0), index=('a', 'b', 'c'), name='x')
+    pairs = [(s, s.rename('y')), (s, s.rename('x')), (s, s.to_series_he()), (s, s.rename(index='i')), (s, s.relabel(('a', 'b', 'd'))), (s, s.astype(object)),
+             (s, sf.Series((1.0, np.nan, 3.0), index=('a', 'b', 'c'), name='y')), (s, s.assign.loc['a'](9.0)), (s, s.assign.loc['b'](2.0))]
+    opts = [dict(compare_name=False, compare_dtype=False, compare_class=False, skipna=True), dict(compare_name=True, compare_dtype=False, compare_class=False, skipna=True),
+            dict(compare_name=False, compare_dtype=True, compare_class=False, skipna=True), dict(compare_name=False, compare_dtype=False, compare_class=True, skipna=True),
+            dict(compare_name=False, compare_dtype=False, compare_class=False, skipna=False)]
+    out = []
+    for a, b in pairs:
+        for o in opts:
+            out.append(dict(self=a, other=b, **o))
+            out.append(dict(self=b, other=a, **o))
+    return out
+
+
 def series_concrete_inputs(model):
     import numpy as np
     import static_frame as sf
+    if '__hook' not in model:
+        return _series_witnesses()
     h = model['__hook']
     opts = dict(compare_name=bool(model.get('compare_name')), compare_dtype=bool(model.get('compare_dtype')), compare_class=bool(model.get('compare_class')),
                 skipna=bool(model.get('skipna', True)))
@@ -437,7 +457,7 @@ def series_concrete_inputs(model):
         return [dict(self=sa, other=sa, **opts)]
     cls_b = sf.Series if h['same_class'] else sf.SeriesHE
     sb = cls_b(vb if h['same_dtype'] else vb.astype(object), index=ixb, name='n' if h['same_name'] else 'other')
-    return [dict(self=sa, other=sb, **opts)]
+    return [dict(self=sa, other=sb, **opts)] + _series_witnesses()
 
 
 def frame_concrete_inputs(model):
